@@ -23,7 +23,7 @@ ASSUMPTIONS = ["a scenario whose written citations are not all extracted at thei
                "opinion window for 'pin cite within the opinion' is read from eyecite.resolve.MAX_OPINION_PAGE_COUNT"]
 FLOORS = {"quick": {"scenarios_decided": 3000, "ref:short": 1500, "ref:supra": 1500, "ref:id": 1500,
                     "colliding_scenarios": 500, "must_stay_unresolved_ids": 500, "exhaustive_small": 2588, "bare_short_forms": 300, "id_range_pins": 300, "accented_names": 300,
-                    "cases_with_variant_spellings": 800, "nominative_reporter_party_names": 200},
+                    "cases_with_variant_spellings": 800, "db_string_scenarios": 1300, "long_prose_before_citation": 300, "nominative_reporter_party_names": 200},
           "thorough": {"scenarios_decided": 200000, "ref:short": 100000, "ref:supra": 100000, "ref:id": 100000,
                        "colliding_scenarios": 50000, "must_stay_unresolved_ids": 50000,
                        "exhaustive_small": 20956}}
@@ -175,6 +175,12 @@ class Scenario:
 
     def sep(self):
         r = self.rng
+        if r.random() < 0.06:
+            # several hundred characters of ordinary prose (no special token in it) before the next citation:
+            # longer than the look-back window of the metadata scans
+            self.text += ". " + gen.filler(r, r.randint(280, 460)).capitalize() + ". "
+            self.long_fill = getattr(self, "long_fill", 0) + 1
+            return
         self.text += r.choice([". ", "; ", ". " + r.choice(FILL) + " ", ". "])
 
     def full(self, i):
@@ -382,6 +388,7 @@ def judge(sc, rec, case):
     rec.count("id_range_pins", getattr(sc, "range_pins", 0))
     rec.count("cases_with_variant_spellings", sum(1 for c in cases if c["cited"] and len(c["spell"]) > 1))
     rec.count("nominative_reporter_party_names", sum(1 for c in cases if c["cited"] and c["D"] in NOMINATIVE_NAMES))
+    rec.count("long_prose_before_citation", getattr(sc, "long_fill", 0))
     rec.count("accented_names", sum(1 for c in cases for n in (c["P"], c["D"]) if not n.isascii()))
     if len({(canon(c["rep"]), c["vol"]) for c in cases if c["cited"]}) < sum(1 for c in cases if c["cited"]):
         rec.count("colliding_scenarios")
@@ -419,10 +426,45 @@ def judge(sc, rec, case):
             rec.violation("C05.wrong_group_" + kind, case, observed=dict(text=text, at=st, frag=frag))
 
 
+def db_mini(rep, spell, tag, maxp):
+    """One case cited in full, then by short form, id. and supra - for one reporter string of the database."""
+    r = random.Random(tag)
+    used = []
+    P = gen.word(r, used, 3); used.append(P)
+    D = gen.word(r, used, 3)
+    case = dict(P=P, D=D, rep=rep, vol=r.randint(1, 300), page=r.randint(1, 900), cited=False, spell=spell)
+    sc = Scenario(r, [case], maxp)
+    sc.full(0)
+    sc.short(0)
+    sc.idc(True)
+    sc.supra(0)
+    return sc
+
+
+def db_strings():
+    G = spelling_groups()
+    out = [(en, sp) for en, sp in sorted(G.items())]
+    grouped = {x for _, sp in out for x in sp}
+    out += [(x, [x]) for x in gen.DB.std if x not in grouped]
+    return out
+
+
 def run_shard(spec, rec):
     import eyecite.resolve as ER
     maxp = ER.MAX_OPINION_PAGE_COUNT
     rng = random.Random(spec["seed"])
+    # every standard-form reporter string of the database (with the other spellings of its edition where
+    # the database has unambiguous ones) in one fixed mini scenario
+    for n, (rep, spell) in enumerate(db_strings()):
+        if n % spec["nshards"] != spec["i"]:
+            continue
+        spell = [x for x in spell if plain_shape_only(x)]
+        if rep not in spell:
+            rec.count("db_string_with_second_pattern_skipped")
+            continue
+        tag = f"{spec['seed']}-db-{n}"
+        judge(db_mini(rep, spell, tag, maxp), rec, dict(db_string=rep, spell=spell, rng=tag))
+        rec.count("db_string_scenarios")
     for collide, combo in small_scenarios(spec["lsmall"], spec["i"], spec["nshards"]):
         srng = random.Random(f"{spec['seed']}-{collide}-{combo}")
         sc = build_small(srng, collide, combo, maxp)
@@ -442,6 +484,8 @@ def replay(w, rec):
     c = w["case"]
     if "small" in c:
         sc = build_small(random.Random(c["rng"]), c["small"][0], tuple(c["small"][1]), maxp)
+    elif "db_string" in c:
+        sc = db_mini(c["db_string"], c["spell"], c["rng"], maxp)
     else:
         sc = random_scenario(random.Random(c["random"]), maxp)
     judge(sc, rec, c)
